@@ -32,10 +32,12 @@ Record hcase := HC {
   c_sparsed : parsed;
   c_macs : list string;       (* the keys (among every key the model or the oracle can ask for) whose HMAC verifies *)
   c_key : string;
-  c_issued : option (string * option string * string * option Z);  (* made by the real make_auth_header with these *)
+  c_issued : option (string * option string * string);  (* made by the real make_auth_header(origin, username, key)
+                                                           while the clock showed c_now8 *)
   c_obs : obs;
   c_http : option Z;
-  c_plain : bool              (* JOSE header is {alg, typ:"JWT"} only and every segment is canonical base64url *)
+  c_plain : bool;             (* JOSE header is {alg, typ:"JWT"} only and every segment is canonical base64url *)
+  c_multi : list (Z * obs)    (* the same header verified again with the clock at c_now8 + offset (eighths of a second) *)
 }.
 
 Definition c_hdr (c : hcase) : string := c_pre c ++ c_cand c ++ c_suf c.
@@ -76,6 +78,11 @@ Section Run.
     let st := state_at (c_k c) in
     let mac := mac_of (c_macs c) (sig_of (c_parsed c)) in
     let dec := decode_of (c_cand c) (c_parsed c) in
+    (* the model of make_auth_header: HS256, exactly make_claims with iat = issue_iat (clock of the call), signed with key *)
+    (match c_issued c with
+     | Some (origin, username, key) => issuedb mac dec origin username key (issue_iat (c_now8 c)) (c_hdr c)
+     | None => true
+     end) &&
     match c_kind c, c_obs c with
     | 0, o =>
         res_obs_eqb (consumer_auth mac dec skew (cur st) (c_now8 c) (c_hdr c)) o
@@ -83,7 +90,11 @@ Section Run.
            | Some z => level_eqb (prepare mac dec skew (empty_hash (sha_of sha)) (cur st) (c_now8 c) (Some (c_hdr c))) z
            | None => true
            end
-    | 2, o => res_obs_eqb (parse_auth_header mac dec skew (c_now8 c) (c_hdr c) "device" (fun _ => Some (c_key c)) false) o
+        && forallb (fun '(d, o') => res_obs_eqb (consumer_auth mac dec skew (cur st) (c_now8 c + d) (c_hdr c)) o') (c_multi c)
+    | 2, o =>
+        forallb (fun '(d, o') =>
+                   res_obs_eqb (parse_auth_header mac dec skew (c_now8 c + d) (c_hdr c) "device" (fun _ => Some (c_key c)) false) o')
+                ((0, o) :: c_multi c)
     | 3, _ =>
         match c_http c with
         | Some z => level_eqb (prepare mac dec skew (empty_hash (sha_of sha)) (cur st) (c_now8 c) None) z
@@ -121,21 +132,27 @@ Section Run.
     let mac := mac_of (c_macs c) (sig_of (c_sparsed c)) in
     let sdec := decode_of (c_cand c) (c_sparsed c) in
     (match c_issued c with
-     | Some (origin, username, key, iat) => issuedb mac sdec origin username key iat (c_hdr c)
+     | Some (origin, username, key) =>
+         (* Spec: the issue time written into a header is the clock at the moment make_auth_header is called *)
+         issuedb mac sdec origin username key (spec_issue_time (c_now8 c)) (c_hdr c)
      | None => true
      end) &&
     match c_kind c, c_obs c with
     | 0, o =>
-        let e := relax (c_plain c)
-                   (expectation (sha_of sha) mac skew p (c_now8 c) (c_hdr c) (c_cand c) (c_sparsed c) "consumer" None) in
+        let ex now := relax (c_plain c)
+                        (expectation (sha_of sha) mac skew p now (c_hdr c) (c_cand c) (c_sparsed c) "consumer" None) in
+        let e := ex (c_now8 c) in
+        forallb (fun '(d, o') => meets 0 (ex (c_now8 c + d)) o') (c_multi c) &&
         meets 0 e o
         && match c_http c with
            | Some z => meets 1 (if (c_hdr c =? "")%string then expectation_no_header p else e) (OLevel z)
            | None => true
            end
     | 2, o =>
-        meets 2 (relax (c_plain c) (expectation (sha_of sha) mac skew p (c_now8 c) (c_hdr c) (c_cand c) (c_sparsed c)
-                                                "device" (Some (c_key c)))) o
+        forallb (fun '(d, o') =>
+                   meets 2 (relax (c_plain c) (expectation (sha_of sha) mac skew p (c_now8 c + d) (c_hdr c) (c_cand c)
+                                                           (c_sparsed c) "device" (Some (c_key c)))) o')
+                ((0, o) :: c_multi c)
     | 3, _ => match c_http c with Some z => meets 3 (expectation_no_header p) (OLevel z) | None => false end
     | 4, OBits a n v leak =>
         negb leak && (bit_spec p Admin =? a)%string && (bit_spec p Normal =? n)%string && (bit_spec p Viewonly =? v)%string
